@@ -221,6 +221,13 @@ pub fn rw_chain(r: &R, e: &Expr) -> Option<String> {
         return None;
     }
     let (base, calls) = flatten(e);
+    if term == "collect" && calls.len() == 3 && calls[0].method == "into_iter" && calls[1].method == "chain" && calls[1].args.len() == 1 {
+        let (b2, c2) = flatten(calls[1].args[0]);
+        if c2.len() == 1 && c2[0].method == "into_iter" {
+            r.note("R8 a.into_iter().chain(b.into_iter()).collect() -> qx_concat(a, b) (std: concatenation)");
+            return Some(format!("qx_concat({}, {})", r.expr(base), r.expr(b2)));
+        }
+    }
     // locate the innermost iter()/into_iter(): everything before it is part of the base expression
     let src_idx = calls.iter().position(|c| (c.method == "iter" || c.method == "into_iter") && c.args.is_empty())?;
     // the base for the chain is base + calls[..src_idx]; recover it as the receiver of calls[src_idx]
